@@ -636,6 +636,7 @@ func main() {
 		lazyStart(res, p, 2, vkit.N(500, 10000))
 	}
 	concurrentBuild(res, vkit.N(400, 8000))
+	concurrentFactory(res, vkit.N(300, 6000))
 	if res.Counter("profiles_fractional_seconds") < 10 || res.Counter("profiles_line") < 10 {
 		res.Inconclusive(true, "too few fractional-second or line profiles judged")
 	}
@@ -715,6 +716,101 @@ func concurrentBuild(res *vkit.Result, rounds int) {
 	}
 	res.Count("schedules_built_concurrently", built)
 	res.Eval("concurrent-build", true)
+}
+
+// concurrentFactory: with rps-per-instance every instance asks the pool's one config-decoded
+// factory for its schedule, from its own goroutine, and instances released together ask at the
+// same moment. 16 goroutines call one factory at once: every caller must get a schedule of its
+// own (no object handed out twice) that realises the configured profile.
+func concurrentFactory(res *vkit.Result, rounds int) {
+	profiles := []Profile{
+		{Kind: "const", Ops: 4, Duration: 5e8}, {Kind: "line", From: 2, To: 10, Duration: 15e8},
+		{Kind: "once", Times: 7}, {Kind: "step", From: 1, To: 3, Step: 1, Duration: 1e9},
+	}
+	t0 := time.Unix(1700000000, 0)
+	drain := func(s core.Schedule) string {
+		var b strings.Builder
+		fmt.Fprintf(&b, "left-before-start=%d;", s.Left())
+		s.Start(t0)
+		for i := 0; i < 200; i++ {
+			t, ok := s.Next()
+			fmt.Fprintf(&b, "%d,", t.Sub(t0))
+			if !ok {
+				break
+			}
+		}
+		return b.String()
+	}
+	for _, p := range profiles {
+		direct, err := build(p)
+		if err != nil {
+			res.Inconclusive(true, "cannot build %v: %v", p, err)
+			return
+		}
+		want := drain(direct)
+		var conf map[string]any
+		d := time.Duration(p.Duration).String()
+		switch p.Kind {
+		case "const":
+			conf = map[string]any{"type": "const", "ops": p.Ops, "duration": d}
+		case "line":
+			conf = map[string]any{"type": "line", "from": p.From, "to": p.To, "duration": d}
+		case "step":
+			conf = map[string]any{"type": "step", "from": p.From, "to": p.To, "step": p.Step, "duration": d}
+		case "once":
+			conf = map[string]any{"type": "once", "times": p.Times}
+		}
+		pc, err := vkit.DecodedPool(conf, nil, true)
+		if err != nil {
+			res.Violate("C01/"+p.Kind+"/concurrent-factory/rejected", fmt.Sprintf("valid rps section rejected: %v", err), p)
+			continue
+		}
+		bad := ""
+		products := int64(0)
+		for r := 0; r < rounds && bad == ""; r++ {
+			const callers = 16
+			got := make([]core.Schedule, callers)
+			errs := make([]error, callers)
+			var wg sync.WaitGroup
+			start := make(chan struct{})
+			for g := 0; g < callers; g++ {
+				wg.Add(1)
+				go func(g int) {
+					defer wg.Done()
+					<-start
+					got[g], errs[g] = pc.NewRPSSchedule()
+				}(g)
+			}
+			close(start)
+			wg.Wait()
+			seen := map[core.Schedule]int{}
+			for g, s := range got {
+				if errs[g] != nil {
+					bad = fmt.Sprintf("round %d: factory call %d failed: %v", r, g, errs[g])
+					break
+				}
+				if prev, dup := seen[s]; dup {
+					bad = fmt.Sprintf("round %d: callers %d and %d were handed the same schedule object", r, prev, g)
+					break
+				}
+				seen[s] = g
+			}
+			for g, s := range got {
+				if bad != "" {
+					break
+				}
+				if d := drain(s); d != want {
+					bad = fmt.Sprintf("round %d: the schedule of caller %d gives %.200s — the section describes %.200s", r, g, d, want)
+				}
+			}
+			products += callers
+		}
+		if bad != "" {
+			res.Violate("C01/"+p.Kind+"/concurrent-factory/profile", "one config-decoded factory called by 16 goroutines at once: "+bad, p)
+		}
+		res.Count("factory_products_checked", products)
+	}
+	res.Eval("concurrent-factory", true)
 }
 
 func estTokens(p Profile) float64 {
